@@ -212,6 +212,10 @@ ssize_t readv(int fd, const struct iovec *iov, int cnt) {
     return syscall(SYS_readv, fd, iov, cnt);
 }
 
+// Mappings of scratch files get a PROT_NONE guard page behind them, so that a read past the (page-rounded) end of the
+// mapped file faults instead of silently reading whatever happens to be mapped next (C17: "... or the mapped file").
+static std::map<void *, size_t> &guarded() { static std::map<void *, size_t> m; return m; }
+
 void *mmap(void *addr, size_t len, int prot, int flags, int fd, off_t off) {
     if (fd >= 0) {
         if (const std::string *p = tracked_fd(fd)) {
@@ -219,9 +223,26 @@ void *mmap(void *addr, size_t len, int prot, int flags, int fd, off_t off) {
             if (const IoFault *f = next_fault("mmap")) {
                 if (f->kind == "mmap_fail") { fire(f); errno = ENOMEM; return MAP_FAILED; }
             }
+            if (addr == nullptr && len > 0) {
+                size_t rounded = (len + 4095) & ~size_t(4095);
+                void *res = (void *) syscall(SYS_mmap, nullptr, rounded + 4096, PROT_NONE, MAP_PRIVATE | MAP_ANONYMOUS, -1, 0);
+                if (res != MAP_FAILED) {
+                    void *m = (void *) syscall(SYS_mmap, res, len, prot, flags | MAP_FIXED, fd, off);
+                    if (m == MAP_FAILED) { int e = errno; syscall(SYS_munmap, res, rounded + 4096); errno = e; return MAP_FAILED; }
+                    guarded()[m] = rounded + 4096;
+                    g_io.calls_by_kind["mmap-guarded"]++;
+                    return m;
+                }
+            }
         }
     }
     return (void *) syscall(SYS_mmap, addr, len, prot, flags, fd, off);
+}
+
+int munmap(void *addr, size_t len) {
+    auto it = guarded().find(addr);
+    if (it != guarded().end()) { size_t total = it->second; guarded().erase(it); return (int) syscall(SYS_munmap, addr, total); }
+    return (int) syscall(SYS_munmap, addr, len);
 }
 void *mmap64(void *addr, size_t len, int prot, int flags, int fd, off_t off) { return mmap(addr, len, prot, flags, fd, off); }
 
